@@ -299,10 +299,17 @@ def focused_time_filter(draw, objs):
                 continue
             if pts:
                 cands.append((comp, sorted(pts)))
+                if b"DURATION" in o:
+                    cands += [(comp, sorted(pts))] * 3  # spans given by a duration are the less common spelling
     if not cands:
         return None
     comp, pts = draw(st.sampled_from(cands))
     rs = ranges_for(pts)
+    if draw(st.booleans()):
+        # a range that starts after the component's first instant (only its tail can overlap)
+        first = filterref.fmt_utc(pts[0].astimezone(filterref.UTC))
+        later = [r for r in rs if r[0] is not None and r[0] > first]
+        rs = later or rs
     s, e = draw(st.sampled_from(rs))
     return {"name": "VCALENDAR", "comps": [{"name": comp, "time_range": [s, e]}]}
 
